@@ -85,6 +85,12 @@ class GuardEval:
     e_List = e_Tuple
     e_Set = e_Tuple
 
+    def e_Dict(self, n):
+        if any(k is None for k in n.keys):
+            return UNK
+        ks, vs = [self.eval(k) for k in n.keys], [self.eval(v) for v in n.values]
+        return UNK if any(v is UNK for v in ks + vs) else dict(zip(ks, vs))
+
     # -- connectives (Kleene)
     def e_BoolOp(self, n):
         vals = [self.eval(v) for v in n.values]
@@ -154,9 +160,34 @@ class GuardEval:
         if isinstance(n.func, ast.Name) and n.func.id in ('bool', 'int', 'abs') and len(n.args) == 1:
             v = self.eval(n.args[0])
             return UNK if v is UNK else {'bool': bool, 'int': int, 'abs': abs}[n.func.id](v)
+        if isinstance(n.func, ast.Name) and n.func.id in ('len', 'enumerate', 'range', 'list', 'tuple', 'str', 'reversed') \
+                and n.args and not n.keywords:
+            vals = [self.eval(a) for a in n.args]
+            if not any(v is UNK for v in vals):
+                v0 = vals[0]
+                if n.func.id == 'len' and isinstance(v0, (str, tuple, list, dict, frozenset, set)):
+                    return len(v0)
+                if n.func.id == 'range' and all(isinstance(v, int) for v in vals):
+                    return tuple(range(*vals))
+                if n.func.id == 'enumerate' and isinstance(v0, (str, tuple, list)):
+                    return tuple(enumerate(v0, *vals[1:]))
+                if n.func.id in ('list', 'tuple') and isinstance(v0, (str, tuple, list)):
+                    return tuple(v0)
+                if n.func.id == 'reversed' and isinstance(v0, (str, tuple, list)):
+                    return tuple(reversed(v0))
+                if n.func.id == 'str' and isinstance(v0, (str, int)):
+                    return str(v0)
         if self.call_hook is not None:
             return self.call_hook(n, self)
         return UNK
+
+    def e_Subscript(self, n):
+        if isinstance(n.slice, ast.Slice):
+            return UNK
+        v, k = self.eval(n.value), self.eval(n.slice)
+        if v is UNK or k is UNK or not isinstance(v, (str, tuple, list, dict)):
+            return UNK
+        return v[k]
 
     def e_NamedExpr(self, n):
         return self.eval(n.value)
